@@ -849,6 +849,22 @@ func specRewrites(c *Ctx, m mdT, cur *string) {
 			return md + "\n~~~~\nzq\n~~~~\n", h + "<pre><code>zq\n</code></pre>\n", true
 		}},
 	}
+	// unrelated closed paragraphs with an unmatched opener of every inline construct, before and
+	// after the example: inline state must not outlive a block
+	for i, pq := range [][2]string{{"zq ` b", "zq ` b"}, {"zq `` b", "zq `` b"}, {"zq ``` b", "zq ``` b"}, {"zq * b _ c", "zq * b _ c"}, {"zq **b", "zq **b"}, {"zq __b", "zq __b"},
+		{"zq [b", "zq [b"}, {"zq ![b", "zq ![b"}, {"zq b]", "zq b]"}, {"zq <b", "zq &lt;b"}, {"zq &amp b", "zq &amp;amp b"}, {"zq \\", "zq \\"}, {"zq <!-- b", "zq &lt;!-- b"}, {"zq [b](", "zq [b]("}} {
+		pm, ph := pq[0], "<p>"+pq[1]+"</p>\n"
+		rws = append(rws, rw{fmt.Sprintf("stray-para-before-%d", i), func(md, h string) (string, string, bool) { return pm + "\n\n" + md, ph + h, true }})
+		rws = append(rws, rw{fmt.Sprintf("stray-para-after-%d", i), func(md, h string) (string, string, bool) {
+			if endsOpen(md) {
+				return "", "", false
+			}
+			if !strings.HasSuffix(md, "\n") {
+				md += "\n"
+			}
+			return md + "\n" + pm + "\n", h + ph, true
+		}})
+	}
 	for _, e := range loadSpec() {
 		for _, r := range rws {
 			md, want, ok := r.f(e.Markdown, e.HTML)
